@@ -201,13 +201,27 @@ def point_cloud(r, n, style, f32=False):
                 pts.append((float(p0[0] + r.range(-1, 1)), float(p0[1] + r.range(-1, 1))))
         if r.chance(0.5):
             r.shuffle(pts)
+    elif style == 'bigcircle':
+        # integer points next to a circle of large radius: nearly cocircular quadruples, edges that are nearly diameters,
+        # coordinate products far beyond the mantissa
+        import math
+        R = float(1 << (r.choice([10, 11]) if f32 else r.choice([26, 27, 30])))
+        cx, cy = r.range(-5, 5), r.range(-5, 5)
+        base = r.range(0, 359)
+        for _ in range(n):
+            k = r.below(6)
+            ang = math.radians(base + r.choice([0, 90, 180, 270, 45, 135]) + r.range(-3, 3) + r.range(0, 1000) / 1000.0)
+            if k == 0:
+                pts.append((float(cx + r.range(-3, 3)), float(cy + r.range(-3, 3))))
+            else:
+                pts.append((float(cx + round(R * math.cos(ang)) + r.range(-1, 1)), float(cy + round(R * math.sin(ang)) + r.range(-1, 1))))
     else:
         raise ValueError(style)
     if f32:
         pts = [(struct.unpack('<f', struct.pack('<f', x))[0], struct.unpack('<f', struct.pack('<f', y))[0]) for x, y in pts]
     return pts
 
-STYLES = [('grid', 36), ('circle', 18), ('line', 8), ('ulp', 12), ('mag', 8), ('cluster', 5), ('ray', 5), ('bigcol', 6), ('unimod', 10)]
+STYLES = [('grid', 36), ('circle', 18), ('line', 8), ('ulp', 12), ('mag', 8), ('cluster', 5), ('ray', 5), ('bigcol', 6), ('unimod', 10), ('bigcircle', 8)]
 
 def pick_cfg(r, kinds=("dt", "cdt"), f32_share=0.2):
     kind = r.choice(list(kinds))
